@@ -603,11 +603,18 @@ class Eval:
         short = d.split(".")[-1]
         if d.startswith("numpy.") and short in NP_PRIMS:
             axis = kw.get("axis")
+            extra = {k: v for k, v in kws.items() if k not in ("axis", "a", "indices", "arr", "obj", "values", "arrays")}
+            if "out" in extra:
+                raise Unrecognised("numpy.%s(..., out=) not modelled" % short)
             if short == "take":      # take(a, indices, axis)
                 src = args[0] if args else kw.get("a")
                 idx = args[1] if len(args) > 1 else kw.get("indices")
                 if axis is None and len(args) > 2:
                     axis = args[2]
+                md = extra.get("mode")
+                if md is not None and not (isinstance(md, ast.Constant) and md.value == "raise"):
+                    # clip / wrap re-interpret the indices: no longer the index the sibling fields are taken with
+                    idx = ("call", "take-mode:%s" % dump(md), (idx,))
                 return ("np", "take", src, idx, None, axis)
             if short == "delete":    # delete(arr, obj, axis)
                 src = args[0] if args else kw.get("arr")
